@@ -61,6 +61,9 @@ Definition flip {S} : M S bool :=
   fun s o => match o with [] => OK true s [] | b :: o' => OK b s o' end.
 (* a data-dependent test of the source whose failure is an error return *)
 Definition check {S} : M S unit := b <- flip ;; if b then ret tt else fail.
+(* a data-dependent branch for which the shape suggests the usual answer [g]: the oracle bit says whether
+   the data agree with it (all oracles still cover both branches) *)
+Definition guess {S} (g : bool) : M S bool := b <- flip ;; ret (if b then g else negb g).
 (* dereference of an optional sub-record held as a presence bit *)
 Definition need {S} (present : bool) : M S unit := if present then ret tt else crash.
 Definition when {S} (c : bool) (m : M S unit) : M S unit := if c then m else ret tt.
@@ -167,7 +170,8 @@ Definition sec_valid (s : sec) : bool := match s with IAT | SecUnknown => false 
 Record entry := mkentry {
   e_cat : cat; e_code : nat;
   e_a02 : bool; e_a98 : bool; e_a98r : bool; e_a99 : bool; e_a99d : bool; e_a99c : bool;
-  e_a05 : list bool }.
+  e_a05 : list bool;
+  e_off : bool }.                 (* IndividualName is "OFFSET" (any case): the entries upsertOffsets removes and re-creates *)
 Record adv_entry := mkadv { ae_cat : cat; ae_code : nat; ae_a99 : bool }.
 Record header := mkheader { h_sec : sec; h_scc : scc }.
 Record batch := mkbatch {
@@ -208,7 +212,7 @@ Definition set_iat (bs : list iat_batch) (f : file) : file := mkfile (f_batches 
 Definition set_ib_control (c : bool) (b : iat_batch) : iat_batch := mkib (ib_header b) c (ib_entries b).
 Definition set_ib_entries (es : list (option iat_entry)) (b : iat_batch) : iat_batch := mkib (ib_header b) (ib_control b) es.
 Definition set_code (c : nat) (e : entry) : entry :=
-  mkentry (e_cat e) c (e_a02 e) (e_a98 e) (e_a98r e) (e_a99 e) (e_a99d e) (e_a99c e) (e_a05 e).
+  mkentry (e_cat e) c (e_a02 e) (e_a98 e) (e_a98r e) (e_a99 e) (e_a99d e) (e_a99c e) (e_a05 e) (e_off e).
 
 (* transaction codes: the credit and debit lists shared by calculateBatchAmounts, segmentFileBatchAddEntry
    and Reversal (each is checked against Gen/Tables by C11/C13; here they only steer which constructed
@@ -402,7 +406,7 @@ Definition inclusion_return (b : batch) (e : entry) : R unit :=
   when (has05 e) (h <- header_of b ;; if sec_eqb (h_sec h) CTX then ret tt else berr b) ;;
   if e_a98 e || e_a98r e then berr b else
   if negb (e_a99 e) && negb (e_a99d e) && negb (e_a99c e)
-  then (c <- flip ;; if c then ret tt else berr b)                (* IndividualName == "OFFSET" *)
+  then (c <- guess (e_off e) ;; if c then ret tt else berr b)     (* IndividualName == "OFFSET" *)
   else ret tt.
 
 Definition addenda_inclusion (b : batch) (e : entry) : R unit :=
@@ -487,14 +491,19 @@ Definition batch_validate (b : batch) : R unit :=
 (* batch.go — the functions that modify the batch; state: the batch *)
 
 (* upsertOffsets; the offset entries it appends are NewEntryDetail values with the category of Entries[0] *)
-Definition offset_entry (c : cat) (code : nat) : option entry := Some (mkentry c code false false false false false false []).
+Definition offset_entry (c : cat) (code : nat) : option entry := Some (mkentry c code false false false false false false [] true).
+
+(* entries that usually carry an amount: not a notification of change, not a prenote (x3, x8) or a
+   zero-dollar remittance code (x4, x9); only used to pick the usual answer of [guess] *)
+Definition moves_money (e : entry) : bool :=
+  negb (cat_eqb (e_cat e) CNOC) && negb (mem (e_code e mod 10) [3; 4; 8; 9]).
 
 Fixpoint remove_offsets (b : batch) (l : list (option entry)) : R (list (option entry)) :=
   match l with
   | [] => ret []
   | None :: _ => crash                                          (* b.Entries[i].IndividualName *)
   | Some e :: t =>
-      keep <- flip ;;                                           (* true: not an OFFSET entry *)
+      keep <- guess (negb (e_off e)) ;;                         (* strings.EqualFold(IndividualName, "OFFSET") *)
       if keep then (r <- remove_offsets b t ;; ret (Some e :: r))
       else need_control b ;; remove_offsets b t                 (* b.Control.… -= …; entry removed *)
   end.
@@ -510,10 +519,11 @@ Definition upsert_offsets : M batch unit :=
   check ;;                                                      (* b.offset.AccountType.validate() *)
   (* createOffsetEntryDetail: batch.Entries[0].Category under len > 0; lastTraceNumber: entries[len-1].TraceNumber *)
   c0 <- (match es with [] => ret CFwd | None :: _ => crash | Some e :: _ => ret (e_cat e) end) ;;
-  (match last es (Some (mkentry CFwd 0 false false false false false false [])) with None => crash | Some _ => ret tt end) ;;
+  (match last es (Some (mkentry CFwd 0 false false false false false false [] false)) with None => crash | Some _ => ret tt end) ;;
   need (b_control b) ;;                                         (* debitED.Amount = b.Control.TotalCreditEntryDollarAmount *)
-  hasD <- flip ;;                                               (* true: no debit offset needed (amount 0) *)
-  hasC <- flip ;;
+  (* debitED.Amount = total credits, creditED.Amount = total debits; zero ⇒ no entry *)
+  hasD <- guess (negb (existsb (fun oe => match oe with Some e => is_credit (e_code e) && moves_money e | None => false end) es)) ;;
+  hasC <- guess (negb (existsb (fun oe => match oe with Some e => is_debit (e_code e) && moves_money e | None => false end) es)) ;;
   chk <- flip ;;                                                (* true: offset.AccountType checking, false: savings *)
   let es1 := if hasD then es else es ++ [offset_entry c0 (if chk then 27 else 37)] in
   let es2 := if hasC then es1 else es1 ++ [offset_entry c0 (if chk then 22 else 32)] in
